@@ -782,7 +782,25 @@ where
     drop(actor_drop_guard);
 
     if had_error {
-      self.session_regulator.enforce_min_lifespan().await;
+      // The penalty wait runs after this actor has been reported as stopped, so Context::term()
+      // does not wait for it: end it as soon as the context (or the owning socket) shuts down
+      // instead of leaving a sleeping task behind.
+      let parent_socket_id = self.parent_socket_id;
+      let system_events = &mut self.system_event_receiver;
+      let shutdown_requested = async {
+        loop {
+          match system_events.recv().await {
+            Ok(SystemEvent::ContextTerminating) => break,
+            Ok(SystemEvent::SocketClosing { socket_id }) if socket_id == parent_socket_id => break,
+            Err(broadcast::error::RecvError::Closed) => break,
+            Ok(_) | Err(broadcast::error::RecvError::Lagged(_)) => continue,
+          }
+        }
+      };
+      tokio::select! {
+        _ = self.session_regulator.enforce_min_lifespan() => {}
+        _ = shutdown_requested => {}
+      }
     }
 
     tracing::info!(
